@@ -285,6 +285,13 @@ func (p *Parser) parseVP8XChunks(buf []byte) error {
 		buf = buf[chunkTotal:]
 	}
 
+	// A non-animated extended file must contain an image chunk. Reaching the
+	// end of the chunk list without one means the data stops before the image
+	// (e.g. a file cut right after the VP8X or a metadata chunk).
+	if !isAnim && len(p.frames) == 0 {
+		return ErrTruncated
+	}
+
 	return nil
 }
 
